@@ -343,7 +343,23 @@ pub fn run(env: &Env, tier: &str, seed: u64, out: &mut Outcome) {
                 continue;
             }
             if !b.foreign.is_empty() {
-                out.inconclusive = Some(format!("[{}] error outside generated modules: {}", cfgk.tag(), b.foreign[0].rendered.lines().take(12).collect::<Vec<_>>().join("\n")));
+                // under configuration A the strum runtime crate itself must build without std: an error located
+                // in <repo>/strum/src is the property failing for every program at once
+                let in_runtime = b.foreign.iter().find(|e| e.rendered.contains(&format!("{}/src/", env.repo.join("strum").display())));
+                match (cfgk, in_runtime) {
+                    (Config::NoStd, Some(e)) => {
+                        out.violations.push(Violation {
+                            kind: "deps:A-no_std:strum-itself-does-not-build-without-std".into(),
+                            enum_name: specs[0].name.clone(),
+                            spec: Some(specs[0].clone()),
+                            detail: json!({"configuration": cfgk.tag(), "message": e.message, "rendered": e.rendered.lines().take(14).collect::<Vec<_>>().join("\n")}),
+                            profile: cfgk.tag().to_string(),
+                        });
+                    }
+                    _ => {
+                        out.inconclusive = Some(format!("[{}] error outside generated modules: {}", cfgk.tag(), b.foreign[0].rendered.lines().take(12).collect::<Vec<_>>().join("\n")));
+                    }
+                }
                 continue;
             }
             if !b.success && b.errors.is_empty() {
@@ -498,6 +514,16 @@ pub fn replay(env: &Env, doc: &serde_json::Value) -> (i32, Outcome) {
         let em = emit_crate(env, &cfg, &items, &BTreeSet::new()).expect("emit");
         let b = cargo_build(env, &cfg, &em, true);
         out.agg.evaluations += 1;
+        if let (Config::NoStd, Some(e)) = (cfgk, b.foreign.iter().find(|e| e.rendered.contains(&format!("{}/src/", env.repo.join("strum").display())))) {
+            out.violations.push(Violation {
+                kind: "deps:A-no_std:strum-itself-does-not-build-without-std".into(),
+                enum_name: spec.name.clone(),
+                spec: Some(spec.clone()),
+                detail: json!({"configuration": cfgk.tag(), "message": e.message, "rendered": e.rendered}),
+                profile: cfgk.tag().to_string(),
+            });
+            break;
+        }
         if b.timed_out || !b.foreign.is_empty() {
             out.inconclusive = Some("replay build problem".into());
         }
